@@ -336,6 +336,53 @@ def r10_11(chk, P, rule='R10.11'):
     return 1
 
 
+def r10_12(chk, P, rule='R10.12'):
+    chk.rule(rule, 'the cached stream offset follows the data source: in every function of vorbisfile.c that takes a handle and calls '
+             'the seek callback, each such call is followed by a store to vf->offset before the function calls another function '
+             'that takes the handle and before it returns anything but a failure code (K2 flag "source moved" per path).  '
+             '_seek_helper leaves out the callback when the target equals vf->offset, so an offset that lags behind the source '
+             'makes the next positioning a no-op: pages still in the read-ahead buffer are taken for pages at the new place, '
+             'and which pages those are depends on how much each read delivered')
+    n = 0
+    for F in P.functions():
+        if not F.file.endswith('vorbisfile.c') or F.entry is None or not F.params or 'OggVorbis_File' not in F.params[0]['t']:
+            continue
+        seeks = [c for c in F.calls() if 'cb:seek_func' in P.call_targets(F, c)]
+        if not seeks:
+            continue
+
+        class H(k2.Flags):
+            def post_call(self, A, env, e, r):
+                if e in seeks:
+                    env['$flags'] = env.get('$flags', frozenset()) | {'moved'}
+                return None
+
+        def takes_handle(A, e):
+            nd = A.ex[e]
+            if nd['k'] != 'call' or e in seeks:
+                return False
+            for t in P.call_targets(A.F, e):
+                G = P.fn.get(t)
+                if G is not None and G.file.endswith('vorbisfile.c') and G.params and 'OggVorbis_File' in G.params[0]['t']:
+                    return True
+            return False
+        h = H([('moved', k2.stores_field(VF, 'offset', ops=None), False)], watch=takes_handle)
+        A = absint.Analyzer(P, F, hooks=h, partition=k2.partition).run()
+        bad = []
+        for e, sets in sorted(h.at.items()):
+            if any('moved' in s_ for s_ in sets):
+                bad.append((e, f'`{F.s(e)[:60]}` is called'))
+        for (e, env, v) in A.ret_states:
+            if 'moved' in env.get('$flags', frozenset()) and (v is None or v.hi >= 0):
+                bad.append((e, f'`{F.s(e)[:40]}` (value {v}) is reached'))
+        bad.sort(key=lambda x: F.loc(x[0]))
+        n += 1
+        chk.ob(rule, F.name, f'offset-redefined-after-seek-callback#{len(seeks)}', not bad, F.where(bad[0][0]) if bad else F.where(seeks[0]),
+               (f'{bad[0][1]} after the seek callback moved the source and before vf->offset was set again: the handle\'s idea of '
+                'the source position is stale') if bad else f'{len(seeks)} seek callback site(s): vf->offset is stored before the handle is used again')
+    return n
+
+
 def run(chk, P):
     E = getattr(P, '_effects', None) or k3.Effects(P)
     P._effects = E
@@ -382,6 +429,8 @@ def run(chk, P):
     chk.floor('R10.7', 1)
     r10_8(chk, P)
     chk.floor('R10.8', 4)
+    r10_12(chk, P)
+    chk.floor('R10.12', 2)
     chk.rule('R10.9', 'streaming delivery decodes every link with that link\'s own set-up: per-link tables are not indexed by the link '
              'counter of a streaming handle, which has one table entry while the counter grows (same obligations as R09.11)')
     c09.r09_11(common.Proxy(chk, 'R10.9'), P, rule='R10.9')
